@@ -79,6 +79,7 @@ type Ctx struct {
 	curMk    *markerInfo
 	inUse    map[*ssa.Function]int
 	trustedClauses []string
+	siteCanaries int
 	recTrial map[*ssa.Function]bool
 	recTarget *ssa.Function
 	recMeasure func(fr *Frame, args []Val) *Term
@@ -159,6 +160,7 @@ type markerInfo struct {
 	callPos token.Pos
 	pre *State
 	freshRefs []*Term
+	retReach  *Term // verify mode: the condition under which the function under proof returns
 }
 
 func (c *Ctx) assume(t *Term) {
